@@ -423,8 +423,9 @@ impl Prop for C03 {
                         let whole = run_event(input, &[])?;
                         let split = run_event(input, cuts)?;
                         let bytes = run_event(input, &vec![1; input.len()])?;
+                        let into = run_event_into(input, cuts)?;
                         ctx.feat_n("diff.events", whole.len() as u64);
-                        for (name, other) in [("partition", &split), ("bytewise", &bytes)] {
+                        for (name, other) in [("partition", &split), ("bytewise", &bytes), ("decode_into", &into)] {
                             if &whole != other {
                                 let at = whole.iter().zip(other.iter()).position(|(a, b)| a != b).unwrap_or(whole.len().min(other.len()));
                                 fail!(
@@ -442,7 +443,8 @@ impl Prop for C03 {
                         let whole = run_command(input, &[])?;
                         let split = run_command(input, cuts)?;
                         let bytes = run_command(input, &vec![1; input.len()])?;
-                        for (name, other) in [("partition", &split), ("bytewise", &bytes)] {
+                        let into = run_command_into(input, cuts)?;
+                        for (name, other) in [("partition", &split), ("bytewise", &bytes), ("decode_into", &into)] {
                             if &whole != other {
                                 let at = whole.iter().zip(other.iter()).position(|(a, b)| a != b).unwrap_or(whole.len().min(other.len()));
                                 fail!(
